@@ -499,3 +499,164 @@ Proof.
       rewrite decide_False in Ea by assumption.
       destruct (decide (k ∈ mq_unified cfg)); [|discriminate]. injection Ea as <-. cbv beta. apply lookup_insert.
 Qed.
+
+Lemma lookup_empty_amap i : (∅ : amap) !! i = None.
+Proof. apply lookup_empty. Qed.
+
+Lemma alookup_snoc l k v k' :
+  alookup (l ++ [(k, v)]) k' =
+  match alookup l k' with Some x => Some x | None => if decide (k' = k) then Some v else None end.
+Proof. induction l as [|[a b] l IHl]; cbn; [reflexivity|]. destruct (decide (k' = a)); auto. Qed.
+
+Ltac fin :=
+  repeat (case_decide; subst; try congruence);
+  repeat match goal with
+         | H : context [alookup ?l ?k] |- _ => destruct (alookup l k) eqn:?
+         | |- context [alookup ?l ?k] => destruct (alookup l k) eqn:?
+         end; try reflexivity; try congruence.
+
+(* complete description of the unified map of a successful memory-qos CreateContainer *)
+Definition mq_derived (cfg : mq_config) (cls : option str) (i : str) : option str :=
+  match cls with
+  | Some c => match find_class (mq_classes cfg) c with
+              | Some (MqAdjust h) => if decide (i = k_high) then Some h
+                                     else if decide (i = k_swap) then Some v_max else None
+              | _ => None
+              end
+  | None => None
+  end.
+Definition mq_spec (cfg : mq_config) (ord : annots) (i : str) : option str :=
+  match (if decide (i = k_class) then None else alookup ord i) with
+  | Some v => Some v
+  | None => mq_derived cfg (alookup ord k_class) i
+  end.
+
+Lemma mq_fold_spec cfg : forall ord,
+  NoDup ord.*1 -> forall u, mq_fold cfg ord = COk u -> forall i, u !! i = mq_spec cfg ord i.
+Proof.
+  unfold mq_fold.
+  apply (fold_left_snoc_ind (mq_step cfg)
+           (fun done st => NoDup done.*1 -> forall u, st = COk u -> forall i, u !! i = mq_spec cfg done i)).
+  - intros _ u Hu i. injection Hu as Hu. subst u. rewrite lookup_empty_amap. unfold mq_spec, mq_derived. cbn [alookup]. case_decide; reflexivity.
+  - intros done [k v] st IH Hnd u Hu i.
+    rewrite fmap_app in Hnd. apply NoDup_app in Hnd as (Hnd & Hfresh & _).
+    assert (alookup done k = None) as Hk.
+    { apply alookup_None. intros Hx. apply (Hfresh k); [assumption|left]. }
+    rewrite mq_step_action in Hu. destruct st as [|u0]; [discriminate|].
+    destruct (mq_action cfg (k, v)) as [f|] eqn:Ea; [|discriminate]. injection Hu as <-.
+    specialize (IH Hnd u0 eq_refl).
+    pose proof k_high_swap. pose proof k_class_high. pose proof k_class_swap.
+    unfold mq_action in Ea. cbn [fst snd] in Ea. unfold mq_spec in *. rewrite !alookup_snoc.
+    destruct (decide (k = k_class)) as [->|Hkc].
+    + rewrite Hk. rewrite (decide_True (P := k_class = k_class)) by reflexivity.
+      pose proof (IH k_high) as IHh. pose proof (IH k_swap) as IHs. specialize (IH i).
+      rewrite Hk in IH, IHh, IHs. cbn [mq_derived] in IH, IHh, IHs.
+      rewrite decide_False in IHh by congruence. rewrite decide_False in IHs by congruence.
+      unfold mq_derived.
+      destruct (find_class (mq_classes cfg) v) as [[|h|]|]; try discriminate; injection Ea as <-.
+      * rewrite IH. fin.
+      * cbv beta. rewrite !lookup_assoc_keep.
+        destruct (decide (i = k_class)) as [->|Hic].
+        { rewrite !decide_False by congruence. rewrite IH. reflexivity. }
+        rewrite (decide_False (P := i = k_class)) in IH by assumption.
+        destruct (decide (i = k_swap)) as [->|His].
+        { rewrite decide_False by congruence. rewrite IHs.
+          rewrite (decide_False (P := k_swap = k_high)) by congruence.
+          now destruct (alookup done k_swap). }
+        destruct (decide (i = k_high)) as [->|Hih].
+        { rewrite IHh. now destruct (alookup done k_high). }
+        rewrite IH. now destruct (alookup done i).
+    + destruct (decide (k ∈ mq_unified cfg)); [|discriminate]. injection Ea as <-. cbv beta.
+      rewrite lookup_insert_dec. specialize (IH i).
+      rewrite (decide_False (P := k_class = k)) by congruence.
+      destruct (decide (i = k)) as [->|Hik].
+      * rewrite decide_False by assumption. now rewrite Hk.
+      * rewrite IH. destruct (decide (i = k_class)); [now destruct (alookup done k_class)|].
+        destruct (alookup done i); [reflexivity|]. now destruct (alookup done k_class).
+Qed.
+
+(* memtierd *)
+Definition mt_derived (cfg : mt_config) (cls : option str) : option str :=
+  match cls, cfg with
+  | Some c, Some classes =>
+      if decide (c = []) then None else
+      match find_class classes c with
+      | Some (Some true) => Some v_max
+      | Some (Some false) => Some v_zero
+      | _ => None
+      end
+  | _, _ => None
+  end.
+Definition mt_spec (cfg : mt_config) (ord : annots) (i : str) : option str :=
+  if decide (i = k_swap) then
+    match alookup ord k_swap with Some v => Some v | None => mt_derived cfg (alookup ord k_class) end
+  else if decide (i = k_high) then alookup ord k_high
+  else None.
+
+Lemma mt_fold_spec cfg : forall ord,
+  NoDup ord.*1 -> forall u, mt_fold cfg ord = COk u -> forall i, u !! i = mt_spec cfg ord i.
+Proof.
+  unfold mt_fold.
+  apply (fold_left_snoc_ind (mt_step cfg)
+           (fun done st => NoDup done.*1 -> forall u, st = COk u -> forall i, u !! i = mt_spec cfg done i)).
+  - intros _ u Hu i. injection Hu as Hu. subst u. rewrite lookup_empty_amap. unfold mt_spec, mt_derived. cbn [alookup]. repeat case_decide; reflexivity.
+  - intros done [k v] st IH Hnd u Hu i.
+    rewrite fmap_app in Hnd. apply NoDup_app in Hnd as (Hnd & Hfresh & _).
+    assert (alookup done k = None) as Hk.
+    { apply alookup_None. intros Hx. apply (Hfresh k); [assumption|left]. }
+    rewrite mt_step_action in Hu. destruct st as [|u0]; [discriminate|].
+    destruct (mt_action cfg (k, v)) as [f|] eqn:Ea; [|discriminate]. injection Hu as <-.
+    specialize (IH Hnd u0 eq_refl).
+    pose proof k_high_swap. pose proof k_class_high. pose proof k_class_swap.
+    unfold mt_action in Ea. cbn [fst snd] in Ea. unfold mt_spec in *. rewrite !alookup_snoc.
+    pose proof (IH k_swap) as IHs. rewrite (decide_True (P := k_swap = k_swap)) in IHs by reflexivity.
+    specialize (IH i).
+    destruct (decide (k = k_swap)) as [->|Hks].
+    { injection Ea as <-. cbv beta. rewrite lookup_insert_dec. rewrite Hk.
+      rewrite (decide_True (P := k_swap = k_swap)) by reflexivity.
+      rewrite (decide_False (P := k_high = k_swap)) by congruence.
+      destruct (decide (i = k_swap)); [reflexivity|]. rewrite IH.
+      destruct (decide (i = k_high)); [now destruct (alookup done k_high)|reflexivity]. }
+    destruct (decide (k = k_high)) as [->|Hkh].
+    { injection Ea as <-. cbv beta. rewrite lookup_insert_dec. rewrite Hk.
+      rewrite (decide_False (P := k_swap = k_high)) by congruence.
+      rewrite (decide_False (P := k_class = k_high)) by congruence.
+      rewrite (decide_True (P := k_high = k_high)) by reflexivity.
+      destruct (decide (i = k_high)) as [->|Hih].
+      - rewrite decide_False by congruence. reflexivity.
+      - rewrite IH. destruct (decide (i = k_swap)); [|reflexivity].
+        destruct (alookup done k_swap); [reflexivity|]. now destruct (alookup done k_class). }
+    rewrite (decide_False (P := k_swap = k)) by congruence.
+    rewrite (decide_False (P := k_high = k)) by congruence.
+    destruct (decide (k = k_class)) as [->|Hkc].
+    + rewrite Hk. rewrite (decide_True (P := k_class = k_class)) by reflexivity.
+      rewrite Hk in IH, IHs. unfold mt_derived in *.
+      assert (forall g : amap -> amap, (forall m j, j <> k_swap -> g m !! j = m !! j) ->
+                (g u0 !! k_swap = match alookup done k_swap with Some x => Some x | None =>
+                    match cfg with Some classes => if decide (v = []) then None else
+                      match find_class classes v with Some (Some true) => Some v_max | Some (Some false) => Some v_zero | _ => None end
+                    | None => None end end) ->
+                g u0 !! i = if decide (i = k_swap) then
+                    match alookup done k_swap with Some x => Some x | None =>
+                    match cfg with Some classes => if decide (v = []) then None else
+                      match find_class classes v with Some (Some true) => Some v_max | Some (Some false) => Some v_zero | _ => None end
+                    | None => None end end
+                  else if decide (i = k_high) then match alookup done k_high with Some x => Some x | None => None end else None) as Hgen.
+      { intros g Hg1 Hg2. destruct (decide (i = k_swap)) as [->|Hne]; [exact Hg2|].
+        rewrite Hg1 by assumption. rewrite IH. destruct (decide (i = k_high)); [now destruct (alookup done k_high)|reflexivity]. }
+      destruct (decide (v = [])) as [->|Hv].
+      * injection Ea as <-. apply Hgen; [reflexivity|]. cbv beta. rewrite IHs.
+        destruct (alookup done k_swap); [reflexivity|]. now destruct cfg.
+      * destruct cfg as [classes|]; [|discriminate].
+        destruct (find_class classes v) as [[[]|]|]; try discriminate; injection Ea as <-; apply Hgen; cbv beta.
+        -- intros m j Hj. rewrite lookup_assoc_keep. now rewrite decide_False.
+        -- rewrite lookup_assoc_keep, decide_True by reflexivity. rewrite IHs. now destruct (alookup done k_swap).
+        -- intros m j Hj. rewrite lookup_assoc_keep. now rewrite decide_False.
+        -- rewrite lookup_assoc_keep, decide_True by reflexivity. rewrite IHs. now destruct (alookup done k_swap).
+        -- reflexivity.
+        -- rewrite IHs. now destruct (alookup done k_swap).
+    + injection Ea as <-. cbv beta. rewrite (decide_False (P := k_class = k)) by congruence. rewrite IH.
+      destruct (decide (i = k_swap)).
+      * destruct (alookup done k_swap); [reflexivity|]. now destruct (alookup done k_class).
+      * destruct (decide (i = k_high)); [now destruct (alookup done k_high)|reflexivity].
+Qed.
